@@ -26,14 +26,15 @@ SPEC = {
         "fresh identifiers (accounts.uuid, transactions.created) are normalised when comparing the retried operation with op(S)",
     ],
     "tiers": {
-        "quick": {"shards": 16, "budget_s": 60},
+        "quick": {"shards": 16, "budget_s": 75},
         "thorough": {"shards": 16, "budget_s": 1500},
     },
     "floors": {
-        "quick": {"scenarios": 16, "write_site_faults_injected": 3000, "vm_step_faults_injected": 3000, "retries_checked": 5000,
-                  "op_put_blocks": 20, "op_truncate_to_height": 8, "op_create_account": 8, "op_lock_outputs": 8, "distinct_nontrivial": 40},
-        "thorough": {"scenarios": 100, "write_site_faults_injected": 100000, "vm_step_faults_injected": 80000, "retries_checked": 150000,
-                     "op_put_blocks": 200, "distinct_nontrivial": 120},
+        "quick": {"scenarios": 8, "write_site_faults_injected": 800, "vm_step_faults_injected": 800, "retries_checked": 1500,
+                  "op_put_blocks": 4, "crash_points_executed": 5, "snapshot_probes": 100, "file_backed_scenarios": 6, "distinct_nontrivial": 25},
+        "thorough": {"scenarios": 100, "write_site_faults_injected": 60000, "vm_step_faults_injected": 40000, "retries_checked": 80000,
+                     "op_put_blocks": 150, "op_truncate_to_height": 40, "op_create_account": 40, "op_lock_outputs": 40,
+                     "crash_points_executed": 500, "snapshot_probes": 5000, "reader_writer_interleavings": 100, "distinct_nontrivial": 120},
     },
     "manifest": {
         "technique": "fault injection inside SQLite (trigger+UDF write-site faults, progress-handler interrupts, commit hook, real abort() crashes in child processes, second-connection snapshot probes) with a whole-database dump oracle",
